@@ -203,7 +203,7 @@ class RecordLaws(Unit):
         return None
 
     def replay(self, model, label):
-        return replay_records()
+        return replay_records()      # (incl. the user-subclass scenario, which is what a failing frame obligation is replayed on)
 
     def bounded(self, rng, tier):
         rp = replay_records(rng)
@@ -231,6 +231,26 @@ def replay_records(rng=None):
             if (a == b) is not want or (a != b) is want or (want and hash(a) != hash(b)) or list(a) != vals:
                 return dict(confirmed=True, n=n, call='%s with slots %r / %r' % (cls.__name__, vals, vals_b),
                             observed='==: %r, !=: %r, hashes %r %r' % (a == b, a != b, hash(a), hash(b)))
+        # a USER subclass of a library record that adds a field (documented: records are plain __slots__ classes), used after
+        # the parent class has been compared / hashed / iterated: its own field takes part in ==, hash and iteration
+        # (seeded change C20-r13: the slot tuple cached per class with getattr, so the subclass inherits its parent's)
+        n += 1
+        a0, b0 = cls.__new__(cls), cls.__new__(cls)
+        for t in slots:
+            setattr(a0, t, 1)
+            setattr(b0, t, 1)
+        _ = (a0 == b0, hash(a0), list(a0))
+        Sub = type('User' + cls.__name__, (cls,), {'__slots__': ('user_extra',)})
+        sa, sb = Sub.__new__(Sub), Sub.__new__(Sub)
+        for t in slots:
+            setattr(sa, t, 1)
+            setattr(sb, t, 1)
+        sa.user_extra, sb.user_extra = 'x', 'y'
+        if list(Sub._all_slots()) != slots + ['user_extra'] or sa == sb or list(sa) != [1] * len(slots) + ['x']:
+            return dict(confirmed=True, n=n, call='class User%s(%s) with __slots__ = ("user_extra",), used after %s itself was compared'
+                        % (cls.__name__, cls.__name__, cls.__name__),
+                        observed='_all_slots() = %r; records that differ only in user_extra compare equal: %r; iter gives %r'
+                                 % (list(Sub._all_slots()), sa == sb, list(sa)))
         # partially initialised: one slot unset on one side and None (or unset) on the other
         for sl in slots:
             for st_a, st_b in ((2, 1), (1, 2), (2, 2), (1, 1)):
